@@ -100,6 +100,8 @@ def run(ctx):
         all_fields = [f['name'] for f in rec['fields']]
         SD = prog.require_func('snoopy_configuration_setDefaults')
         DT = prog.require_func('snoopy_configuration_dtor')
+        from engine import inline as _inl
+        DT = _inl.inlined(prog, DT)      # free-and-reset helpers handed the field's address: looked at in place
         defaults = {}
         for fld, nodes in field_stores(SD).items():
             defaults[fld] = nodes
@@ -129,7 +131,7 @@ def run(ctx):
                         restored.setdefault(fld, []).append(('via ' + t.name, nodes))
         fresh_per_call = False
         if 'SNOOPY_CONF_THREAD_SAFETY_ENABLED' in prog.macros:
-            N = prog.func('snoopy_tsrm_createNewThreadData')
+            N = common.thread_data_maker(prog)
             G = prog.require_func('snoopy_configuration_get')
             fresh = N is not None and any(
                 strip(arg(c, 0)).k == 'MemberExpr' and strip(arg(c, 0)).get('member') == 'configuration'
@@ -137,7 +139,8 @@ def run(ctx):
             defaulted = bool(G.calls('snoopy_configuration_setDefaults')) and any(
                 n.k == 'MemberExpr' and n.get('member') == 'initialized'
                 for b in G.blocks.values() if b.cond is not None for n in b.cond.walk())
-            ctor_creates = summ.must_call(prog.require_func('snoopy_tsrm_ctor'), {'snoopy_tsrm_createNewThreadData'}) or \
+            ctor_creates = N.name == 'snoopy_tsrm_ctor' or \
+                summ.must_call(prog.require_func('snoopy_tsrm_ctor'), {'snoopy_tsrm_createNewThreadData'}) or \
                 bool(prog.require_func('snoopy_tsrm_ctor').calls('snoopy_tsrm_createNewThreadData'))
             dtor_frees = any(strip(arg(c, 0)).k == 'MemberExpr' and strip(arg(c, 0)).get('member') == 'configuration'
                              for c in prog.require_func('snoopy_tsrm_dtor').calls('free'))
@@ -176,7 +179,8 @@ def run(ctx):
         vio_by = {}
         for rule, f, n, fld, d in res.violations:
             vio_by.setdefault((f.name, fld, rule), []).append((n, d))
-        for f in prog.functions:
+        from engine import inline as _inl2
+        for f in [_inl2.inlined(prog, f0) for f0 in prog.functions]:
             touched = {}
             for n in f.body.walk():
                 if n.k == 'BinaryOperator' and n['op'] == '=':
